@@ -831,8 +831,23 @@ func onlyCgoVerdicts(v ssa.Value, seen map[ssa.Value]bool) bool {
 	seen[v] = true
 	switch x := v.(type) {
 	case *ssa.Call:
-		_, ok := cgoName(x.Call.StaticCallee())
-		return ok
+		if _, ok := cgoName(x.Call.StaticCallee()); ok {
+			return true
+		}
+		// a helper the rules do not know that hands the C verdict on unchanged
+		if h := helperCallee(x); h != nil {
+			rs := returnsD(h, 99)
+			if len(rs) == 0 {
+				return false
+			}
+			for _, r := range rs {
+				if len(r.Results) != 1 || !onlyCgoVerdicts(r.Results[0], seen) {
+					return false
+				}
+			}
+			return true
+		}
+		return false
 	case *ssa.Phi:
 		for _, e := range x.Edges {
 			if !onlyCgoVerdicts(e, seen) {
@@ -1473,6 +1488,8 @@ func ruleC16(w *World) {
 							m := ""
 							if rr.Common().IsInvoke() {
 								m = rr.Common().Method.Name()
+							} else if sc := rr.Common().StaticCallee(); sc != nil && sc.Signature.Recv() != nil && (sc == a.sign || sc == a.verify) {
+								m = sc.Name() // the BLS key's own Sign / Verify called on the concrete type
 							}
 							// passed as the hasher of Sign/Verify, or asked directly for the hash of the message (checked below to be the key encoding)
 							direct := m == "ComputeHash" && rr.Common().Value == ssa.Value(x)
@@ -1525,17 +1542,41 @@ func ruleC16(w *World) {
 			w.check(has(fmt.Sprintf("len(%s) == %d", P(vpop, 1), a.sigLen)), "C16.R3", fnKey(vpop)+"/length", c.Pos(), "proof length checked", "PoP verification core reached without the signature length guard", facts...)
 		}
 	}
+	// receiver and arguments of a method call, whether it goes through the interface or the asserted concrete type
+	recvArgs := func(cc *ssa.CallCommon) (string, []string) {
+		var vals []ssa.Value
+		var recv ssa.Value
+		if cc.IsInvoke() {
+			recv, vals = cc.Value, cc.Args
+		} else if len(cc.Args) > 0 {
+			recv, vals = cc.Args[0], cc.Args[1:]
+		}
+		var out []string
+		for _, v := range vals {
+			out = append(out, render(v))
+		}
+		if recv == nil {
+			return "", out
+		}
+		return render(recv), out
+	}
 	for _, c := range callsTo(vpop, "Verify") {
 		cc := c.Common()
 		pk := P(vpop, 0)
-		w.check(render(cc.Value) == pk && render(cc.Args[1]) == pk+".Encode()" && render(cc.Args[0]) == P(vpop, 1), "C16.R3", fnKey(vpop)+"/message", c.Pos(),
+		asserted := pk + ".(*" + a.pubT.Obj().Name() + ")#0"
+		rv, as := recvArgs(cc)
+		okk := (rv == pk || rv == asserted) && len(as) >= 2 && (as[1] == pk+".Encode()" || as[1] == asserted+".Encode()") && as[0] == P(vpop, 1)
+		w.check(okk, "C16.R3", fnKey(vpop)+"/message", c.Pos(),
 			"verifies pop over pk.Encode() under pk", "BLSVerifyPOP does not verify the given proof over pk.Encode() under the same pk: "+render(c.(ssa.Value)))
 		w.requireFacts("C16.R3", fnKey(vpop)+"/typeguard", c.(ssa.Instruction), pk+".(*"+a.pubT.Obj().Name()+")#1 == true")
 	}
 	for _, c := range callsTo(gpop, "Sign") {
 		cc := c.Common()
 		sk := P(gpop, 0)
-		w.check(render(cc.Value) == sk && render(cc.Args[0]) == sk+".PublicKey().Encode()", "C16.R3", fnKey(gpop)+"/message", c.Pos(),
+		asserted := sk + ".(*" + a.prT.Obj().Name() + ")#0"
+		rv, as := recvArgs(cc)
+		okk := (rv == sk || rv == asserted) && len(as) >= 1 && (as[0] == sk+".PublicKey().Encode()" || as[0] == asserted+".PublicKey().Encode()")
+		w.check(okk, "C16.R3", fnKey(gpop)+"/message", c.Pos(),
 			"signs sk.PublicKey().Encode() with sk", "BLSGeneratePOP does not sign the encoding of its own public key: "+render(c.(ssa.Value)))
 		w.requireFacts("C16.R3", fnKey(gpop)+"/typeguard", c.(ssa.Instruction), sk+".(*"+a.prT.Obj().Name()+")#1 == true")
 	}
